@@ -332,6 +332,23 @@ def run(ck):
               "`%s < 0` bails out before size = %s; converted with a signed conversion" % (v, v) if guarded and signed else
               "the parsed chunk size `%s` is stored without a sign check (converted by %s): a size line like -5 or 8000000000000000 becomes a "
               "negative size and then a huge unsigned count" % (v, d_[0].get("icall") if d_ else "?"))
+        # ... and only when the conversion consumed something: the end pointer it was handed differs from where it started
+        # (found by the mutation sweep: `end == start` turned into `end != start` survives the repository's tests, which never parse a
+        # chunked message; every chunk-size line is then refused -- and one without digits is accepted as 0)
+        conv = [c for c in g.events("call") if (c.get("callee") or "") in ("strtol", "std::strtol", "strtoll", "std::strtoll", "strtoul", "std::strtoul") and len(c.get("args") or []) >= 2]
+        endv = None
+        for c in conv:
+            m_ = _re.match(r"^&\s*(\w+)$", (c["args"][1].get("t") or "").strip())
+            if m_:
+                endv = m_.group(1)
+        if endv:
+            moved = [(b.id, k) for b in g.blocks.values() if b.term and len(b.succs) == 2 for k in (0, 1) if b.succs[k] is not None
+                     and lib.edge_establishes(b.term, k, endv, ("!=", ">"))]
+            okm = any(cfg.edge_dominates(g, bid, k, a) for bid, k in moved)
+            ck.ob("C03-R6", "Chunk::parse/size-stored-only-after-digits", okm, a.loc, g,
+                  "size = %s only on an edge that knows `%s` has moved past the start of the text" % (v, endv) if okm else
+                  "the parsed chunk size is stored on a path that does not know the conversion consumed a digit (`%s` != start): a size line "
+                  "without hex digits is taken for 0 -- or, with the test inverted, every valid size line is refused" % endv)
 
     # ---------------- R6 ----------------
     nsd = 0
